@@ -238,6 +238,8 @@ fn parse(text: &str, allow_substvar: bool) -> Parse {
                     self.error("Expected version".to_string());
                 }
 
+                self.skip_ws();
+
                 if self.current() == Some(R_PARENS) {
                     self.bump();
                 } else {
